@@ -137,6 +137,10 @@ RunFails(e) ==
         ELSE LET s == e.sends[1].s  m == DescOf(s) IN
              IF m \notin Legal(root) THEN {<<"C07", "fallback-illegal", D(<<f.cmd, m>>)>>}
              ELSE IF ~(SameAs(Apply(root, m), s) /\ KingsOk(Apply(root, m), s)) THEN {<<"C07", "fallback-wrong-board", D(<<f.cmd, m>>)>>}
+             \* "the first move in its ordering": no root move has a larger ordering value than the one handed back
+             ELSE IF Has(f, "root_order") /\ \E i, j \in 1..Len(f.root_order) :
+                        f.root_order[i][1] = e.sends[1].txt /\ f.root_order[j][2] > f.root_order[i][2]
+                  THEN {<<"C07", "fallback-not-first-in-ordering", D(<<f.cmd, e.sends[1].txt>>)>>}
              ELSE {}
    ELSE {})
   \cup
